@@ -392,6 +392,28 @@ func TestVerif_C05(t *testing.T) {
 	})
 	r.Exhaustive("every atom of every table alone, at each position of a 3-element list and duplicated, x Credentialed x 4 PNA settings x 2 tolerate flags (x 3 entry points for singletons); all max-age x status pairs")
 
+	// ---- part 1b: every byte value inside a method and inside request-/response-header names (token alphabet)
+	r.Parallel(1, func(l *Local) {
+		for v := 0; v < 256; v++ {
+			b := string([]byte{byte(v)})
+			tchar := isToken("a" + b)
+			for ei, entry := range entries {
+				mk := MAtom{"ZZ" + b + "QQ", mInvalid, ""}
+				hq := HAtom{"X-" + b + "-Y", hInvalid, ""}
+				hr := HAtom{"X-" + b + "-Z", hInvalid, ""}
+				if tchar {
+					mk = MAtom{"ZZ" + b + "QQ", mValid, "ZZ" + b + "QQ"}
+					hq = hv("X-" + b + "-Y")
+					hr = hv("X-" + b + "-Z")
+				}
+				c := &CfgSpec{Origins: []OAtom{secureOriginAtoms[0]}, Cred: ei%2 == 0, Methods: []MAtom{validMethodAtoms[0], mk}, ReqHdrs: []HAtom{hq, validReqHdrAtoms[0]}, RespHdrs: []HAtom{validRespHdrAtoms[0], hr}}
+				c05Run(r, l, c, entry, "token-byte-sweep")
+				l.NontrivialKey(specKey(c), entry)
+			}
+		}
+	})
+	r.Exhaustive("every byte value inside a method, a request-header name and a response-header name (valid iff the byte is a token character), all entry points")
+
 	// ---- part 2: every subset of violated fields at once
 	r.Parallel(128, func(l *Local) {
 		mask := l.Batch
